@@ -185,6 +185,22 @@ fn script() -> Vec<Step> {
         (1, json!({"releaseLock": {"transactionId": 57, "key": "L"}}), 57, Exp::One(&["ack"], None)),
         (0, json!({"releaseLock": {"transactionId": 58, "key": "never/locked"}}), 58, Exp::One(c, Some(21))),
         (0, json!({"acquireLock": {"transactionId": 59, "key": "free"}}), 59, Exp::One(&["ack"], None)),
+        // two subscriptions of one session to the same key, both unsubscribed
+        (0, json!({"subscribe": {"transactionId": 60, "key": "k3", "unique": false}}), 60, Exp::Sub("state")),
+        (0, json!({"subscribe": {"transactionId": 61, "key": "k3", "unique": false}}), 61, Exp::Sub("state")),
+        (0, json!({"unsubscribe": {"transactionId": 60}}), 60, Exp::Unsub(None)),
+        (0, json!({"unsubscribe": {"transactionId": 61}}), 61, Exp::Unsub(None)),
+        (0, json!({"set": {"transactionId": 62, "key": "k3", "value": 1}}), 62, Exp::One(&["ack"], None)),
+        // a waiting session goes away: the next in line still gets its answer
+        (0, json!({"lock": {"transactionId": 70, "key": "L2"}}), 70, Exp::One(&["ack"], None)),
+        (1, json!({"acquireLock": {"transactionId": 71, "key": "L2"}}), 71, Exp::Pending),
+        (2, json!({"acquireLock": {"transactionId": 72, "key": "L2"}}), 72, Exp::Pending),
+        (1, json!({"__disconnect": true}), 0, Exp::Pending),
+        (0, json!({"releaseLock": {"transactionId": 73, "key": "L2"}}), 73, Exp::One(&["ack"], None)),
+        (2, json!({"get": {"transactionId": 74, "key": "k3"}}), 74, Exp::One(&["state"], None)),
+        // a session that got the lock by waiting goes away without releasing: the key is free again
+        (2, json!({"__disconnect": true}), 0, Exp::Pending),
+        (0, json!({"acquireLock": {"transactionId": 75, "key": "L2"}}), 75, Exp::One(&["ack"], None)),
     ]
 }
 
@@ -195,23 +211,47 @@ pub fn c13(out: &mut Out) {
     let r = catch_unwind(AssertUnwindSafe(|| rt.block_on(async {
         let cfg = worterbuch::Config::new(None).await.expect("config");
         let api = spawn_core(Worterbuch::with_config(cfg.clone()), cfg.clone());
-        let mut sessions = vec![Session::open(&api, "A", 0xA, false).await, Session::open(&api, "B", 0xB, false).await];
+        let mut sessions = vec![Session::open(&api, "A", 0xA, false).await, Session::open(&api, "B", 0xB, false).await, Session::open(&api, "C", 0xC1, false).await];
+        let sids = [0xAu128, 0xB, 0xC1];
         let mut problems: Vec<Value> = vec![];
         for (si, line, tid, exp) in &steps {
+            if line.get("__disconnect").is_some() {
+                // the session ends: its pending requests die with it
+                api.disconnected(uuid::Uuid::from_u128(sids[*si]), None).await.ok();
+                settle().await;
+                sessions[*si].pending.clear();
+                sessions[*si].closed = true;
+                let _ = sessions[*si].drain();
+                for other in 0..sessions.len() {
+                    if other == *si { continue; }
+                    let om = sessions[other].drain();
+                    for m in &om {
+                        let ok = match m.1 {
+                            Some(t) if sessions[other].subs.contains(&t) && EVENTS.contains(&m.0.as_str()) => true,
+                            Some(t) if sessions[other].pending.contains(&t) && (m.0 == "ack" || m.0 == "err") => { sessions[other].pending.remove(&t); true }
+                            _ => false,
+                        };
+                        if !ok { problems.push(json!({"session": sessions[other].name, "while": line, "problem": format!("unsolicited message {m:?}")})); }
+                    }
+                }
+                continue;
+            }
             let (open, msgs) = sessions[*si].request(&line.to_string()).await;
             if let Some(p) = check_step(&mut sessions[*si], *tid, exp, open, &msgs) {
                 problems.push(json!({"session": sessions[*si].name, "request": line, "problem": p, "received": format!("{msgs:?}")}));
             }
-            // what the OTHER session received meanwhile
-            let other = 1 - *si;
-            let om = sessions[other].drain();
-            for m in &om {
-                let ok = match m.1 {
-                    Some(t) if sessions[other].subs.contains(&t) && EVENTS.contains(&m.0.as_str()) => true,
-                    Some(t) if sessions[other].pending.contains(&t) && (m.0 == "ack" || m.0 == "err") => { sessions[other].pending.remove(&t); true }
-                    _ => false,
-                };
-                if !ok { problems.push(json!({"session": sessions[other].name, "while": line, "problem": format!("unsolicited message {m:?}")})); }
+            // what the OTHER sessions received meanwhile
+            for other in 0..sessions.len() {
+                if other == *si { continue; }
+                let om = sessions[other].drain();
+                for m in &om {
+                    let ok = match m.1 {
+                        Some(t) if sessions[other].subs.contains(&t) && EVENTS.contains(&m.0.as_str()) => true,
+                        Some(t) if sessions[other].pending.contains(&t) && (m.0 == "ack" || m.0 == "err") => { sessions[other].pending.remove(&t); true }
+                        _ => false,
+                    };
+                    if !ok { problems.push(json!({"session": sessions[other].name, "while": line, "problem": format!("unsolicited message {m:?}")})); }
+                }
             }
             if problems.len() > 4 { break; }
         }
